@@ -1,9 +1,12 @@
 package node
 
 import (
+	"errors"
 	"fmt"
+	"os"
 	"runtime"
 	"strings"
+	"syscall"
 	"testing"
 	"time"
 
@@ -29,7 +32,9 @@ func TestC12CloseRightAfterInitialize(t *testing.T) {
 		ncustom := rapid.IntRange(1, 4).Draw(t, "custom_transports")
 		servers := rapid.Bool().Draw(t, "tcp_and_udp_server_too")
 		consume := rapid.Bool().Draw(t, "events_consumed")
-		desc0 := fmt.Sprintf("customTransports=%d servers=%v eventsConsumed=%v drawn: processors=%d yields=%d", ncustom, servers, consume, procsDrawn, yieldsDrawn)
+		// what the transports' Close reports (it closes in every case): nothing, EINTR, EINTR inside a PathError, another error
+		closeReports := rapid.IntRange(0, 3).Draw(t, "close_reports")
+		desc0 := fmt.Sprintf("customTransports=%d servers=%v eventsConsumed=%v closeReports=%d drawn: processors=%d yields=%d", ncustom, servers, consume, closeReports, procsDrawn, yieldsDrawn)
 		// every case: ten rounds on one processor without a yield, ten on all processors, ten as drawn
 		for round := 0; round < 30; round++ {
 			procs, yields := procsDrawn, yieldsDrawn
@@ -49,6 +54,14 @@ func TestC12CloseRightAfterInitialize(t *testing.T) {
 			var endpoints []gomavlib.EndpointConf
 			for i := range pipes {
 				pipes[i] = sim.NewPipe()
+				switch closeReports {
+				case 1:
+					pipes[i].FailCloseOnce(syscall.EINTR)
+				case 2:
+					pipes[i].FailCloseOnce(&os.PathError{Op: "close", Path: "/dev/ttyS9", Err: syscall.EINTR})
+				case 3:
+					pipes[i].FailCloseOnce(errors.New("final flush failed"))
+				}
 				endpoints = append(endpoints, gomavlib.EndpointCustom{ReadWriteCloser: pipes[i]})
 			}
 			var ports []int
